@@ -372,6 +372,19 @@ pub fn explore_program(prog: &Prog, class: Class, cfg: &HistCfg, stats: &mut Sta
             what: format!("re-execution of step {} of the history produced a different trace", i),
             replay: json!({"engine": "hist", "program": prog.to_json(), "history": path_json(&path), "diverging_step": i}),
           };
+          // Diagnostics: re-execute the path three more times and record which observations differ.
+          {
+            let mut txt = format!("program {}\nhistory {:?}\ndiverging step {}\nrecorded digest {:016x}, now {:016x}\n", prog.short(), path_strings(&path), i, d, step_digest(&j.steps[i]));
+            for run in 0..3 {
+              let again = judge_path(prog, class, cfg, &path, crashes_used);
+              let st = &again.steps[i];
+              txt.push_str(&format!("--- re-run {}: digest {:016x}\noutcome {:?}\npost_cells {:?}\ndep_errors {:?}\ndump {}\nrec2 {:?}\nevt {:?}\nlog {:#?}\n", run, step_digest(st), st.outcome, st.post_cells, st.dep_errors, st.dump.to_json(), st.rec2, st.evt, st.log));
+            }
+            let st = &j.steps[i];
+            txt.push_str(&format!("--- the diverging execution: digest {:016x}\noutcome {:?}\npost_cells {:?}\ndep_errors {:?}\ndump {}\nrec2 {:?}\nevt {:?}\nlog {:#?}\n", step_digest(st), st.outcome, st.post_cells, st.dep_errors, st.dump.to_json(), st.rec2, st.evt, st.log));
+            let _ = std::fs::create_dir_all(format!("{}/tmp", crate::common::verif_dir()));
+            let _ = std::fs::write(format!("{}/tmp/divergence-{}-{}.txt", crate::common::verif_dir(), cfg.prop.name(), std::process::id()), txt);
+          }
           if cfg.prop == Prop::C16 { sink(v); return; }
           engine_error(&format!("non-reproducible execution (not a verdict for {}): program {} history {:?} step {}", cfg.prop.name(), prog.short(), path_strings(&path), i));
         }
